@@ -66,11 +66,17 @@ def same(v, r):
 
 
 def nfc_escape_clause(s):
-    """The escape letter written for a newline/tab composes (NFC) with the next character."""
+    """The escape letter written for a newline/tab is changed by NFC of the emitted line: it composes with a combining
+    mark of the run that follows it (a mark composes with the letter unless blocked by an earlier mark of the same or a
+    higher combining class, e.g. TAB U+0338 U+0308: t + U+0308 -> U+1E97 although U+0338 stands in between)."""
     for i, ch in enumerate(s[:-1]):
         if ch in "\n\t":
             letter = "n" if ch == "\n" else "t"
-            if unicodedata.normalize("NFC", letter + s[i + 1]) != letter + s[i + 1]:
+            j = i + 1
+            while j < len(s) and unicodedata.combining(s[j]) != 0:
+                j += 1
+            run = s[i + 1:j]
+            if run and unicodedata.normalize("NFC", letter + run)[0] != letter:
                 return True
     return False
 
@@ -279,7 +285,10 @@ def run(ctx):
         try:
             st, r = write_tool_roundtrip(s, "K")
         except Exception as e:  # noqa
-            ctx.property_failure({"value": s, "via": "octave_write changes"}, f"octave_write raised {type(e).__name__}: {e}")
+            fid = None
+            if have_model and s in m_class and m_class[s] in FINDING_OF_CLASS:
+                fid = FINDING_OF_CLASS[m_class[s]]      # e.g. NAME<a,b>: written bare, the re-read inside the tool is refused
+            ctx.property_failure({"value": s, "via": "octave_write changes"}, f"octave_write raised {type(e).__name__}: {e}", finding=fid)
             continue
         wt += 1
         ctx.count()
